@@ -233,6 +233,16 @@ Proof.
 Qed.
 Print Assumptions C12_lf_values_window_independent.
 
+(* From "within eps before rounding" to the files: with values counted in units of 1/D LSB,
+   np.rint(u) (round half to even of u/D) of a value within e < D of v is within D/2 + e of v
+   (0.5 LSB + eps of the whole-trace low-pass) and within 1 LSB of np.rint(v) (two window sizes,
+   or the rounded reference): the property's "to 1 LSB". *)
+Theorem C12_rounding_within_one_lsb : forall D u v e, 0 < D -> 0 <= e < D -> Z.abs (u - v) <= e ->
+  2 * Z.abs (D * round_half_even_div u D - v) <= D + 2 * e /\
+  Z.abs (round_half_even_div u D - round_half_even_div v D) <= 1.
+Proof. exact rounding_one_lsb. Qed.
+Print Assumptions C12_rounding_within_one_lsb.
+
 (* The hypotheses of the two value theorems are satisfiable (a 3-tap moving sum as the filter,
    a taper that zeroes the ends, eps = 0), and the model then computes values. *)
 Example C12_values_hypotheses_satisfiable :
